@@ -1,7 +1,7 @@
 (* C12: inclusion isotonicity - widening an input never narrows an output. *)
 From Coq Require Import Reals Lra Lia Psatz List Bool ZArith Arith Permutation.
 From PUN Require Import Base.Num Base.Sort Model.Interval Model.IntervalFun Model.Pbox Model.B2B
-                        Proofs.Hull Proofs.ListR Proofs.PboxWF Proofs.IntervalOps Proofs.IntervalFun Proofs.B2B Proofs.DepOps Proofs.Lattice.
+                        Proofs.Hull Proofs.ListR Proofs.PboxWF Proofs.IntervalOps Proofs.IntervalFun Proofs.B2B Proofs.DepOps Proofs.Lattice Proofs.Query.
 Import ListNotations.
 Open Scope R_scope.
 
@@ -232,3 +232,139 @@ Proof.
     + inversion E; inversion E'; subst. reflexivity.
 Qed.
 End Expr.
+
+(* ---------- opposite and independent dependence ---------- *)
+Theorem opposite_iso (op : bop) (XL XR XL' XR' YL YR : list R) :
+  length XR = length XL -> length YL = length XL -> length YR = length XL -> length XL' = length XL -> length XR' = length XL ->
+  Forall2 sub_pr (combine XL XR) (combine XL' XR') -> Forall wfp (combine XL XR) -> Forall wfp (combine XL' XR') -> Forall wfp (combine YL YR) ->
+  (is_div op = true -> Forall (fun q => ~ has0 q) (combine YL YR)) ->
+  pinside (opposite_op RN (opR op) XL XR YL YR) (opposite_op RN (opR op) XL' XR' YL YR).
+Proof.
+  intros l1 l2 l3 l4 l5 H W W' WY Hz. rewrite !opposite_op_spec by lia. unfold pinside; cbn [fst snd].
+  destruct (istep_iso_list op _ _ (rev (combine YL YR)) H W W' (Forall_rev WY) ltac:(intros E; apply Forall_rev; apply Hz; exact E)) as [I1 I2].
+  split; apply sort_ple; assumption.
+Qed.
+Lemma ple_app_both (a a' b b' : list R) : ple a a' -> ple b b' -> ple (a ++ b) (a' ++ b').
+Proof. intros H Hb. induction H; cbn [app]; [exact Hb|]. constructor; auto. Qed.
+Lemma all_pairs_iso (op : bop) : forall X X' Y : list (R * R),
+  Forall2 sub_pr X X' -> Forall wfp X -> Forall wfp X' -> Forall wfp Y -> (is_div op = true -> Forall (fun q => ~ has0 q) Y) ->
+  ple (map fst (all_pairs (opR op) X' Y)) (map fst (all_pairs (opR op) X Y)) /\
+  ple (map snd (all_pairs (opR op) X Y)) (map snd (all_pairs (opR op) X' Y)).
+Proof.
+  intros X X' Y H. induction H as [|p p' X X' Hp H IH]; intros W W' WY Hz; unfold all_pairs in *; cbn [flat_map map].
+  - split; constructor.
+  - inversion W as [|? ? Wp WX]; inversion W' as [|? ? Wp' WX']; subst. destruct (IH WX WX' WY Hz) as [I1 I2].
+    rewrite !map_app.
+    assert (Row : ple (map fst (map (istep (opR op) p') Y)) (map fst (map (istep (opR op) p) Y)) /\
+                  ple (map snd (map (istep (opR op) p) Y)) (map snd (map (istep (opR op) p') Y))).
+    { clear - Hp WY Hz Wp Wp'. assert (Hz' : is_div op = true -> Forall (fun q => ~ has0 q) Y) by exact Hz. clear Hz.
+      induction WY as [|q Y Wq WY IHY]; cbn [map]; [split; constructor|].
+      assert (Hz'' : is_div op = true -> Forall (fun q0 => ~ has0 q0) Y) by (intros E; specialize (Hz' E); inversion Hz'; assumption).
+      destruct (IHY Hz'') as [J1 J2].
+      assert (S : sub_pr (istep (opR op) p q) (istep (opR op) p' q)).
+      { apply corner_hull_iso; auto. apply sub_pr_refl. intros E. specialize (Hz' E). inversion Hz'; assumption. }
+      split; constructor; auto; apply S. }
+    destruct Row as [R1 R2]. split; apply ple_app_both; assumption.
+Qed.
+Theorem independent_iso (op : bop) (XL XR XL' XR' YL YR : list R) :
+  length XR = length XL -> length YR = length YL -> length XL' = length XL -> length XR' = length XL ->
+  Forall2 sub_pr (combine XL XR) (combine XL' XR') -> Forall wfp (combine XL XR) -> Forall wfp (combine XL' XR') -> Forall wfp (combine YL YR) ->
+  (is_div op = true -> Forall (fun q => ~ has0 q) (combine YL YR)) ->
+  pinside (independent_op RN (opR op) XL XR YL YR) (independent_op RN (opR op) XL' XR' YL YR).
+Proof.
+  intros l1 l2 l4 l5 H W W' WY Hz. rewrite !independent_op_spec by lia. unfold pinside; cbn [fst snd].
+  destruct (all_pairs_iso op _ _ (combine YL YR) H W W' WY Hz) as [I1 I2]. split; apply sort_ple; assumption.
+Qed.
+
+(* ---------- subinterval reconstitution with direct evaluation lies inside the un-subdivided direct result ---------- *)
+Lemma linspace_between (a b : R) n v : a <= b -> (1 <= n)%nat -> In v (linspace RN a b (S n)) -> a <= v <= b.
+Proof.
+  intros Hab Hn Hv. destruct n as [|n]; [lia|]. unfold linspace in Hv. apply in_map_iff in Hv. destruct Hv as (i & <- & Hi). apply in_seq in Hi.
+  cbn [nadd nsub nmul ndiv nofZ RN T]. destruct (Nat.eqb i (S (S n) - 1)); [lra|].
+  replace (S (S n) - 1)%nat with (S n) by lia.
+  assert (P : 0 < IZR (Z.of_nat (S n))) by (apply IZR_lt; lia).
+  assert (Q : 0 <= IZR (Z.of_nat i) <= IZR (Z.of_nat (S n))) by (split; apply IZR_le; lia).
+  set (N := IZR (Z.of_nat (S n))) in *. set (I := IZR (Z.of_nat i)) in *.
+  assert (E : I * ((b - a) / N) = (I / N) * (b - a)) by (field; lra). rewrite E.
+  assert (0 <= I / N <= 1).
+  { split; [apply Rmult_le_pos; [lra|left; apply Rinv_0_lt_compat; lra]|]. apply Rmult_le_reg_r with N; [lra|]. unfold Rdiv. rewrite Rmult_assoc, Rinv_l by lra. lra. }
+  split; nra.
+Qed.
+Lemma linspace_step_le (a b : R) n i : a <= b -> (1 <= n)%nat -> (i < n)%nat ->
+  nth i (linspace RN a b (S n)) 0 <= nth (S i) (linspace RN a b (S n)) 0.
+Proof.
+  intros Hab Hn Hi. destruct n as [|n]; [lia|]. unfold linspace. rewrite !nth_map_seq_gen by lia.
+  cbn [nadd nsub nmul ndiv nofZ RN T]. replace (S (S n) - 1)%nat with (S n) by lia.
+  assert (P : 0 < IZR (Z.of_nat (S n))) by (apply IZR_lt; lia).
+  destruct (Nat.eqb_spec i (S n)); [lia|]. 
+  assert (St : 0 <= (b - a) / IZR (Z.of_nat (S n))) by (apply Rmult_le_pos; [lra|left; apply Rinv_0_lt_compat; lra]).
+  destruct (Nat.eqb_spec (S i) (S n)) as [E|E].
+  - (* the last point is b itself *) assert (i = n) by lia. subst i.
+    assert (IZR (Z.of_nat n) * ((b - a) / IZR (Z.of_nat (S n))) <= b - a).
+    { assert (Q : IZR (Z.of_nat n) <= IZR (Z.of_nat (S n))) by (apply IZR_le; lia).
+      set (N := IZR (Z.of_nat (S n))) in *. set (I := IZR (Z.of_nat n)) in *.
+      replace (I * ((b - a) / N)) with ((I / N) * (b - a)) by (field; lra).
+      assert (0 <= I / N <= 1).
+      { assert (0 <= I) by (apply IZR_le; lia). split; [apply Rmult_le_pos; [lra|left; apply Rinv_0_lt_compat; lra]|].
+        apply Rmult_le_reg_r with N; [lra|]. unfold Rdiv. rewrite Rmult_assoc, Rinv_l by lra. lra. }
+      nra. }
+    lra.
+  - assert (Q : IZR (Z.of_nat i) <= IZR (Z.of_nat (S i))) by (apply IZR_le; lia). nra.
+Qed.
+Lemma In_combine_consecutive (l : list R) (t : R * R) : In t (combine (removelast l) (tl l)) ->
+  exists i, (S i < length l)%nat /\ t = (nth i l 0, nth (S i) l 0).
+Proof.
+  induction l as [|a l IH]; [intros []|]. destruct l as [|b l]; [intros []|].
+  change (removelast (a :: b :: l)) with (a :: removelast (b :: l)). cbn [tl combine]. intros [<-|H].
+  - exists 0%nat. cbn [length nth]. split; [lia|reflexivity].
+  - destruct (IH H) as (i & Hi & E). exists (S i). cbn [length nth] in *. split; [lia|exact E].
+Qed.
+Lemma tile_inside (p : R * R) n t : wfp p -> (1 <= n)%nat -> In t (tiles1 RN p n) -> wfp t /\ sub_pr t p.
+Proof.
+  intros W Hn Ht. unfold tiles1 in Ht. cbv zeta in Ht. apply In_combine_consecutive in Ht. destruct Ht as (i & Hi & ->).
+  rewrite linspace_length in Hi. unfold wfp in W.
+  assert (B1 : fst p <= nth i (linspace RN (fst p) (snd p) (S n)) 0 <= snd p) by (apply (linspace_between _ _ n); auto; apply nth_In; rewrite linspace_length; lia).
+  assert (B2 : fst p <= nth (S i) (linspace RN (fst p) (snd p) (S n)) 0 <= snd p) by (apply (linspace_between _ _ n); auto; apply nth_In; rewrite linspace_length; lia).
+  split; [unfold wfp; cbn [fst snd]; apply linspace_step_le; [exact W|exact Hn|apply Nat.succ_lt_mono; exact Hi]|]. unfold sub_pr; cbn [fst snd]. split; [apply B1|apply B2].
+Qed.
+Lemma tiles_inside box n tb : wf_box box -> (1 <= n)%nat -> In tb (subintervalise RN box n) -> wf_box tb /\ Forall2 sub_pr tb box.
+Proof.
+  intros W Hn Ht. unfold subintervalise in Ht. apply in_cartesian in Ht. rewrite Forall2_map_r in Ht || idtac.
+  revert tb Ht. induction W as [|p box Wp W IH]; intros tb Ht; cbn [map] in Ht; inversion Ht; subst; [split; constructor|].
+  destruct (IH _ ltac:(eassumption)) as [A B]. destruct (tile_inside p n _ Wp Hn ltac:(eassumption)) as [C D]. split; constructor; assumption.
+Qed.
+Lemma tiles1_nonempty (p : R * R) n : (1 <= n)%nat -> tiles1 RN p n <> [].
+Proof. intros Hn. destruct n as [|n]; [lia|]. unfold tiles1, linspace. cbv zeta. cbn [seq map].
+  change (removelast (?a :: ?b :: ?l)) with (a :: removelast (b :: l)). cbn [removelast tl combine]. discriminate. Qed.
+Section SubDirect.
+Variable fexp : R -> R.
+Variable fpow : R -> nat -> R.
+Hypothesis fexp_is : forall x, fexp x = exp x.
+Hypothesis fpow_is : forall x k, fpow x k = x ^ k.
+Theorem sub_direct_inside_direct e box n r D : pos_pows e -> wf_box box -> (1 <= n)%nat ->
+  sub_direct RN fexp fpow e box n = Ok r -> direct RN fexp fpow e box = Ok D -> sub_pr r D.
+Proof.
+  intros Hp W Hn Es Ed. unfold sub_direct in Es. destruct (sequence _) as [rs| |] eqn:Eq; cbn [rbind] in Es; try discriminate.
+  pose proof (sequence_ok _ _ Eq) as F.
+  assert (All : Forall (fun rt => sub_pr rt D) rs).
+  { remember (subintervalise RN box n) as tl eqn:Et.
+    assert (Htl : forall tb, In tb tl -> wf_box tb /\ Forall2 sub_pr tb box) by (intros tb Hin; subst tl; apply (tiles_inside box n tb W Hn Hin)).
+    clear Et Eq Es. revert rs F. induction tl as [|tb tl IH]; intros rs F; cbn [map] in F; inversion F as [|? rt ? rs' Hrt F']; subst; constructor.
+    - destruct (Htl tb (or_introl eq_refl)) as [Wt St]. unfold direct in Hrt, Ed.
+      destruct (ieval RN fexp fpow e tb) as [v| |] eqn:E1; cbn [rbind] in Hrt; try discriminate.
+      destruct (ieval RN fexp fpow e box) as [v'| |] eqn:E2; cbn [rbind] in Ed; try discriminate. inversion Hrt; inversion Ed; subst.
+      pose proof (ieval_iso fexp fpow fexp_is fpow_is e tb box v v' Hp St Wt W E1 E2) as S.
+      pose proof (ieval_wf fexp fpow fexp_is fpow_is e tb v Wt E1) as Wv.
+      destruct v as [p|c], v' as [p'|c']; cbn [sub_v as_pr] in *; try exact S; try contradiction;
+        unfold sub_pr, in_pr in *; cbn [fst snd] in *; subst; lra.
+    - apply IH; auto. intros tb' Hin. apply Htl. right; exact Hin. }
+  unfold reconstitute, mkI in Es. cbn [nleb RN T] in Es. destruct (Rleb _ _); inversion Es; subst. unfold sub_pr; cbn [fst snd].
+  assert (Ne : rs <> []).
+  { intro E. subst rs. inversion F as [E0|]. symmetry in E0. apply map_eq_nil in E0.
+    revert E0. apply cartesian_nonempty. apply Forall_forall. intros l Hl. apply in_map_iff in Hl. destruct Hl as (p & <- & _).
+    exact (tiles1_nonempty p n Hn). }
+  rewrite Forall_forall in All. split.
+  - apply minl_ge_all; [intro E; apply map_eq_nil in E; contradiction|]. intros v Hv. apply in_map_iff in Hv. destruct Hv as (t & <- & Ht). apply All; exact Ht.
+  - apply maxl_le_all; [intro E; apply map_eq_nil in E; contradiction|]. intros v Hv. apply in_map_iff in Hv. destruct Hv as (t & <- & Ht). apply All; exact Ht.
+Qed.
+End SubDirect.
